@@ -423,3 +423,7 @@ def run(ctx: Context) -> None:
     r15f(ctx, ra)
     r15g(ctx)
     common.fixed_flag_survives_faults(ctx, "R15h", ra)
+    if ctx.tier == "thorough":
+        from sa.rules import driver_exploration
+
+        driver_exploration.c15_predicates(ctx)
